@@ -132,10 +132,13 @@ Recomputed(s, r, K) ==
 
 Resp(ok) == [ok |-> ok]
 
+\* only new_nonce changes the signer's state (every check takes &self)
+NextS(s, r) == IF r.op = "NewNonce" THEN [n |-> s.n + 1] ELSE s
+
 Step(s, r, K) ==
   CASE r.op = "NewNonce" ->
          \* last_nonce := fresh entropy; the nonce is returned to be sent with the read
-         [resp |-> Resp(TRUE), s |-> [n |-> s.n + 1]]
+         [resp |-> Resp(TRUE), s |-> NextS(s, r)]
     [] r.op = "Open" ->
          \* remove_and_check_hmac: (1) shorter than a tag -> Err  (2) split off the last 32
          \* bytes  (3) recompute over key, version, remaining value and compare
@@ -192,10 +195,18 @@ KeyOf(s, r, K) == LET v == Verdict(s, r, K) IN
 
 InitGhost == [a |-> {}, b |-> {}, c |-> {}]
 
-Ghost(g, s, r, resp, K) ==
-  IF r.op = "NewNonce" \/ ~resp.ok THEN g
+\* Judgement of one observed step: does it conform to Step, and what does the monitor say
+\* (evaluated once per implementation edge by ImplAuth / TraceAuth)
+Judge(s, r, ok, K) ==
+  IF r.op = "NewNonce" THEN [exp |-> TRUE, mon |-> "ok", key |-> <<>>]
   ELSE LET v == Verdict(s, r, K) IN
-       IF v.mon = "ok" THEN g ELSE [g EXCEPT ![v.mon] = @ \cup {KeyOf(s, r, K)}]
+       [exp |-> Step(s, r, K).resp.ok,
+        mon |-> v.mon,
+        key |-> IF ok /\ v.mon # "ok" THEN KeyOf(s, r, K) ELSE <<>>]
+
+GhostJ(g, ok, j) == IF ok /\ j.mon # "ok" THEN [g EXCEPT ![j.mon] = @ \cup {j.key}] ELSE g
+
+Ghost(g, s, r, resp, K) == GhostJ(g, resp.ok, Judge(s, r, resp.ok, K))
 
 Inv_C17a(g) == g.a = {}
 Inv_C17b(g) == g.b = {}
